@@ -623,7 +623,7 @@ class PolynomialFromAttributes(Contract):
                             ctx.assume(ctx.forall_range(0, n, lambda t: keyok(sym[2](t), D)))
                             for a in eok_axioms():
                                 ctx.assume(a)
-                            ex.sym, ex.E = sym, E
+                            ex.sym, ex.E, ex.C_in = sym, E, C
                             ex.ghost = {}
                             nm = ctx.const("names_in", Names)
                             ex.names_in = nm
@@ -675,8 +675,10 @@ class PolynomialFromAttributes(Contract):
             return
         Cs = V.as_seq(ex, C2)
         ex.oblige("post.shape", p.shape == shape, "post")
-        ex.oblige("post.dtype", p.dtype == (ex.dtype_arg if ex.dtype_arg is not None else Cs.item(z3.IntVal(0)).dtype), "post",
-                  note="requested dtype, else the dtype of the first coefficient array")
+        from engine.polymodel import promoted_dtype
+        ex.oblige("post.dtype", p.dtype == (ex.dtype_arg if ex.dtype_arg is not None else promoted_dtype(ex, ex.C_in)), "post",
+                  note="requested dtype, else numpy's common type of ALL coefficient arrays handed in (as numpy.array([...]) would "
+                       "choose): no term is truncated to the type of the first one and the retain options cannot change it (C12, C15)")
         ex.oblige("post.every_coefficient_defined", ctx.forall_range(0, p.N, lambda t: ctx.forall_idx(
             lambda i: p.init(t, i), p.shape)), "post", note="C12: no uninitialised memory is returned")
         ex.oblige("post.coefficient_values", ctx.forall_range(0, p.N, lambda t: ctx.forall_idx(
@@ -708,7 +710,11 @@ class PolynomialFromAttributes(Contract):
             lambda i: C2.item(t).init(i), c0.shape)), "precondition", node,
             note="C12: coefficients handed to the constructor must have been written")
         dtype = b.get("dtype")
-        dt = c0.dtype if dtype is None else as_dtype(ex, dtype, node)
+        if dtype is None:
+            from engine.polymodel import promoted_dtype
+            dt = promoted_dtype(ex, V.as_seq(ex, Cin, node))      # common type of all coefficients handed in
+        else:
+            dt = as_dtype(ex, dtype, node)
         alloc = b.get("allocation")
         if alloc is not None:
             ex.oblige(f"pre({site}).allocation", z3.Or(alloc == E2.n, alloc >= 2 * E2.n), "precondition", node)
